@@ -288,6 +288,10 @@ def m2_refusals(chk, F, G, core_call, tag):
                 other = st.get("otherwise")
                 if zero_t and other is not None and flow.edge_dominates(G, sb, other, cb) and gf.error_only_from(G, zero_t[0], [cb]):
                     found_zero = True
+    if not found_zero:
+        ok2, d2 = zero_loop_idiom(F, G, msgp, cb, ex)
+        found_zero = ok2
+        detail += "; explicit loop: " + d2
     chk.ob("M2.non-zero-trailer-refused-before-the-core", G.key + tag, found_zero,
            "in %s the signing core is not guarded by a test that every byte of the last H::OUTPUT_SIZE bytes is zero (%s): a message with a non-zero trailer byte would be "
            "signed, its trailer overwritten and a leaf consumed" % (G.path, detail), where=G.loc(cb))
@@ -330,6 +334,99 @@ def split_component(f, operand, allowed, depth=0):
             return None
         return split_component(f, rv["op"], allowed, depth + 1)
     return None
+
+
+def suffix_of_message(F, G, operand, msgp, ex, depth=0):
+    """Is the operand (an iterator / slice view) exactly the last H::OUTPUT_SIZE bytes of the message parameter:
+    `split_at(len - n).1` or `msg[len - n ..]`, viewed only through iter / into_iter / reborrows?"""
+    sp = split_component(G, operand, ("iter", "into_iter", "by_ref"))
+    if sp is not None and sp[1] == 1 and core.strip_generics(core.callee_path(sp[0]) or "").endswith("split_at"):
+        e = ex.of_operand(sp[0]["args"][1])
+        return flow.origin(G, sp[0]["args"][0]) == ("arg", msgp) and is_len_minus_n(e)
+    p = core.op_place(operand)
+    if p is None or depth > 12:
+        return False
+    ds = [d for d in G.defs_of(p["local"]) if not G.blocks[d[0]]["cleanup"]]
+    if len(ds) != 1:
+        return False
+    b, i, d = ds[0]
+    if i == "term":
+        last = core.strip_generics(core.callee_path(d) or "").rsplit("::", 1)[-1]
+        if last in ("iter", "into_iter", "by_ref") and d["args"]:
+            return suffix_of_message(F, G, d["args"][0], msgp, ex, depth + 1)
+        if last in ("index", "get") and len(d["args"]) == 2 and "RangeFrom" in (core.op_place(d["args"][1]) or {}).get("ty", ""):
+            rl = core.op_local(d["args"][1])
+            rd = G.defs_of(rl) if rl is not None else []
+            if len(rd) == 1 and rd[0][1] != "term" and rd[0][2]["rv"]["k"] == "aggregate":
+                start = ex.of_operand(rd[0][2]["rv"]["ops"][0])
+                return flow.origin(G, d["args"][0]) == ("arg", msgp) and is_len_minus_n(start)
+        return False
+    if d["k"] == "assign" and d["rv"]["k"] in ("use", "cast"):
+        return suffix_of_message(F, G, d["rv"]["op"], msgp, ex, depth + 1)
+    if d["k"] == "assign" and d["rv"]["k"] in ("ref", "rawptr") and [e["k"] for e in d["rv"]["place"]["proj"]] in ([], ["deref"]):
+        return suffix_of_message(F, G, {"k": "copy", "place": {"local": d["rv"]["place"]["local"], "proj": [], "ty": ""}}, msgp, ex, depth + 1)
+    return False
+
+
+def is_len_minus_n(e):
+    while isinstance(e, tuple) and e[0] == "cast":
+        e = e[1]
+    return isinstance(e, tuple) and e[0] == "bin" and e[1] == "Sub" and expr.has_call(e[2], "::len") and expr.has_assoc(e[3], "OUTPUT_SIZE")
+
+
+def zero_loop_idiom(F, G, msgp, cb, ex):
+    """`for byte in <suffix> { if *byte != 0 { return Err } }` before the core: the loop is driven by an iterator over the whole
+    suffix, a comparison of the item with 0 sends non-zero bytes to an error-only exit, and the only other way out of the loop is
+    the exhausted iterator, which is on every path to the core."""
+    for h, body in G.natural_loops():
+        nexts = [(b, G.blocks[b]["term"]) for b in body if G.blocks[b]["term"]["k"] == "call" and core.strip_generics(core.callee_path(G.blocks[b]["term"]) or "").endswith("::next")]
+        if len(nexts) != 1:
+            continue
+        nb, nt = nexts[0]
+        if not suffix_of_message(F, G, nt["args"][0], msgp, ex):
+            continue
+        item = nt["dest"]["local"]
+        # comparison of the item with zero
+        cmp_ok = False
+        for b in body:
+            t = G.blocks[b]["term"]
+            if t["k"] != "switch":
+                continue
+            l = core.op_local(t["discr"])
+            ds = G.defs_of(l) if l is not None else []
+            if len(ds) != 1 or ds[0][1] == "term" or ds[0][2]["rv"]["k"] != "binop" or ds[0][2]["rv"]["op"] not in ("Ne", "Eq"):
+                continue
+            rv = ds[0][2]["rv"]
+            zero_side = core.op_const_val(rv["b"]) == 0 or core.op_const_val(rv["a"]) == 0
+            other = rv["a"] if core.op_const_val(rv["b"]) == 0 else rv["b"]
+            d = core.operand_deps(G, other)
+            from_item = item in d["locals"]
+            if not (zero_side and from_item):
+                continue
+            zero_t = [tg for v, tg in t["targets"] if v == 0]
+            oth = t.get("otherwise")
+            nonzero_edge = oth if rv["op"] == "Ne" else (zero_t[0] if zero_t else None)
+            if nonzero_edge is not None and nonzero_edge not in body and gf.error_only_from(G, nonzero_edge, [cb]):
+                cmp_ok = True
+        if not cmp_ok:
+            continue
+        # other exits: only from the switch on the iterator's result
+        exits = [(b, s2) for b in body for s2 in G.succ[b] if s2 not in body and not G.blocks[s2]["cleanup"] and G.blocks[s2]["term"]["k"] != "unreachable"]
+        good = True
+        done_edge = None
+        for b, s2 in exits:
+            t = G.blocks[b]["term"]
+            if gf.error_only_from(G, s2, [cb]):
+                continue
+            l = core.op_local(t.get("discr", {})) if t["k"] == "switch" else None
+            ds = G.defs_of(l) if l is not None else []
+            if len(ds) == 1 and ds[0][1] != "term" and ds[0][2]["rv"]["k"] == "discr" and ds[0][2]["rv"]["place"]["local"] == item:
+                done_edge = (b, s2)
+            else:
+                good = False
+        if good and done_edge and flow.edge_dominates(G, done_edge[0], done_edge[1], cb):
+            return True, "loop over the whole trailer with `byte != 0 -> Err`"
+    return False, "no such loop"
 
 
 def m4_absorb_order(chk, F, T, tag):
